@@ -95,7 +95,12 @@ def run(ctx: Ctx):
         W = ctx.rng.choice([1, 2, 2, 3, 3])
         mode = ctx.rng.choice(["sync", "async"])
         spec = cl.rand_workload(ctx.rng, W)
-        case = {"W": W, "rounds": [{"mode": mode, "path": "/snap/A", "spec": spec, "faults": [], "chooser": rand_chooser(ctx.rng, W)}]}
+        faults = []
+        if ctx.rng.random() < 0.25:
+            # a failing payload write: whatever is visible afterwards must be nothing or a complete snapshot
+            r = ctx.rng.randrange(W)
+            faults = [[r, ctx.rng.randrange(len(spec["tensors"][r])) if spec.get("nobatch", True) else 0]]
+        case = {"W": W, "rounds": [{"mode": mode, "path": "/snap/A", "spec": spec, "faults": faults, "chooser": rand_chooser(ctx.rng, W)}]}
         suite = f"{mode}_cuts"
         _account(ctx, case, cl.run_case(ctx, case, suite, cuts=ctx.n(5, 10), cut_rng=cut_rng), suite)
     # successive snapshots of one job (the store persists): same or different path, after success (deleted) or failure
